@@ -50,8 +50,9 @@ func cmdCropYml(args []string) error {
 }
 
 // cmdCropEdit writes a copy of a crop parameter file in which one parameter is edited.
-//   -fmt yml : through the CropParam structure (ReadCropParamFromFile / WriteCropParam)
-//   -fmt txt : rewrite of the value field (column 66 onwards) of the parameter's line
+//
+//	-fmt yml : through the CropParam structure (ReadCropParamFromFile / WriteCropParam)
+//	-fmt txt : rewrite of the value field (column 66 onwards) of the parameter's line
 func cmdCropEdit(args []string) error {
 	fs := flag.NewFlagSet("cropedit", flag.ExitOnError)
 	in := fs.String("in", "", "input file")
